@@ -2,6 +2,7 @@
 import ast
 
 from .common import *  # noqa
+from . import c07
 from . import so
 from .c07 import TS, TU, stream_cls, circuit_cls, top_of, replay, attach_effect
 
@@ -362,6 +363,10 @@ def r08_5(run):
         run.ob('R08.5', cl, cl.node, '%s.close sends the close command' % name, len(sends) == 1, slot='close-sends:%s' % name, message='%s.close sends %d close commands' % (name, len(sends)))
 
 
+def r08_7(run):
+    c07.event_reaches_update(run, 'R08.7')
+
+
 def r08_6(run):
     k = 0
     for ci, name in ((circuit_cls(run), 'Circuit'), (stream_cls(run), 'Stream')):
@@ -392,12 +397,14 @@ RULES = [
     ('R08.3', 'global listeners attached to existing and future objects; listen deduplicates', r08_3),
     ('R08.4', 'one-shot waits: built fired only in BUILT / failed only on close|fail; close wait completed exactly on CLOSED|FAILED, guarded and cleared; SingleObserver latch', r08_4),
     ('R08.5', 'every Deferred close() returns is structurally chained on the closing event, not on the command acknowledgement', r08_5),
+    ('R08.7', 'must-pass-through: every CIRC line reaches Circuit.update (the only place listeners are notified); a created stream is updated from its line', r08_7),
     ('R08.6', 'sibling rule: a handed-out pending Deferred field is never overwritten', r08_6),
 ]
 
 from ..selftest import M  # noqa: E402
 FS, FT, FC = 'txtorcon/stream.py', 'txtorcon/torstate.py', 'txtorcon/circuit.py'
 MUTANTS = [
+    M('terminal-first-sight-dropped', 'txtorcon/torstate.py', "        circ_id = int(args[0])\n\n        c = self._maybe_create_circuit(circ_id)", "        circ_id = int(args[0])\n        if circ_id not in self.circuits and args[1] in ('CLOSED', 'FAILED'):\n            return\n\n        c = self._maybe_create_circuit(circ_id)", ['R08.7']),
     M('state-after-notify', FC, "        self.state = args[1]\n\n        kw = find_keywords(args)\n        self.flags = kw\n", "        kw = find_keywords(args)\n        self.flags = kw\n", None),
     M('built-notified-twice', FC, "        if self.state == 'BUILT':\n            for x in self.listeners:\n                x.circuit_built(self)\n", "        if self.state == 'BUILT':\n            for x in self.listeners:\n                x.circuit_built(self)\n            for x in self.listeners:\n                x.circuit_built(self)\n", ['R08.1']),
     M('no-stream_failed-notify', FS, "            self._notify('stream_failed', self, **flags)\n", "            pass\n", ['R08.1']),
